@@ -50,6 +50,40 @@ pub fn replace(args: &Args) -> Report {
         hays.extend(next.iter().cloned());
         frontier = next;
     }
+    // the replacement table is indexed by pattern identifier: a table whose length is not the
+    // pattern count is refused (documented panic) by every table-driven routine, before any output
+    if !safety {
+        use aho_corasick::automaton::Automaton;
+        let pats: Vec<Vec<u8>> = vec![b"fox".to_vec(), b"dog".to_vec()];
+        let tables: Vec<(&str, Vec<&str>)> = vec![("one entry too few", vec!["cat"]), ("one entry too many", vec!["cat", "mouse", "bird"]), ("empty", vec![])];
+        let hay = "the quick fox and the lazy dog";
+        for kind in [None, Some(AhoCorasickKind::NoncontiguousNFA), Some(AhoCorasickKind::ContiguousNFA), Some(AhoCorasickKind::DFA)] {
+            let ac = AhoCorasickBuilder::new().kind(kind).build(&pats).unwrap();
+            let nn = aho_corasick::nfa::noncontiguous::NFA::new(&pats).unwrap();
+            let cn = aho_corasick::nfa::contiguous::NFA::new(&pats).unwrap();
+            let df = aho_corasick::dfa::DFA::new(&pats).unwrap();
+            for (tname, t) in &tables {
+                let tb: Vec<&[u8]> = t.iter().map(|x| x.as_bytes()).collect();
+                let calls: Vec<(&str, Box<dyn Fn() -> bool + '_>)> = vec![
+                    ("AhoCorasick::replace_all", Box::new(|| { let _ = ac.replace_all(hay, t); true })),
+                    ("AhoCorasick::replace_all_bytes", Box::new(|| { let _ = ac.replace_all_bytes(hay.as_bytes(), &tb); true })),
+                    ("AhoCorasick::try_replace_all", Box::new(|| { let _ = ac.try_replace_all(hay, t); true })),
+                    ("AhoCorasick::try_replace_all_bytes", Box::new(|| { let _ = ac.try_replace_all_bytes(hay.as_bytes(), &tb); true })),
+                    ("AhoCorasick::try_stream_replace_all", Box::new(|| { let mut out = vec![]; let _ = ac.try_stream_replace_all(hay.as_bytes(), &mut out, &tb); true })),
+                    ("noncontiguous::NFA try_replace_all", Box::new(|| { let _ = Automaton::try_replace_all(&nn, hay, t); true })),
+                    ("contiguous::NFA try_replace_all_bytes", Box::new(|| { let _ = Automaton::try_replace_all_bytes(&cn, hay.as_bytes(), &tb); true })),
+                    ("dfa::DFA try_replace_all", Box::new(|| { let _ = Automaton::try_replace_all(&df, hay, t); true })),
+                    ("dfa::DFA try_stream_replace_all", Box::new(|| { let mut out = vec![]; let _ = Automaton::try_stream_replace_all(&df, hay.as_bytes(), &mut out, &tb); true })),
+                ];
+                for (name, f) in &calls {
+                    rep.case(true);
+                    if catch_unwind(AssertUnwindSafe(|| f())).is_ok() {
+                        rep.fail(Fail { key: format!("replace:table-len:{}:{}", name, tname), what: format!("{} (kind {:?}) with a replacement table that is {} for 2 patterns returned instead of refusing the table", name, kind, tname), argv: vec!["replace".into()] });
+                    }
+                }
+            }
+        }
+    }
     // long haystacks with many matches, empty and very long replacements, > 256 patterns
     {
         let pats: Vec<Vec<u8>> = (0..300u32).map(|i| format!("k{:03}", i).into_bytes()).collect();
@@ -346,6 +380,8 @@ pub fn cfgprod(args: &Args) -> Report {
         "the full product match kind (3) x start kind (3) x requested anchoring (2) x engine kind (auto + 3 explicit) x 17 top-level search APIs x {with, without} an empty pattern, on several pattern lists and haystacks each (exhaustive over configurations)".into(),
         "case = (configuration, API, pattern list, haystack): outcome class Ok / Err / panic must equal the four-clause rejection rule; fallible APIs never panic, infallible ones never return when rejected, a constructed iterator never panics while drained".into(),
     );
+    // rejection depends on the final option values only, not on how the builder got there
+    builder_reuse(&rep, "cfgprod");
     let lists: Vec<Vec<Vec<u8>>> = vec![
         vec![],
         vec![b"a".to_vec()],
@@ -404,7 +440,51 @@ pub fn cfgprod(args: &Args) -> Report {
 // ------------------------------------------------------------------------------------------
 // C20 metadata / building
 // ------------------------------------------------------------------------------------------
+/// building from iterators whose size_hint is only a bound (run in a child process: an attempt to
+/// allocate for the hinted size aborts the process instead of panicking)
+fn iter_shapes(rep: &Report) {
+        struct Loose<'a> { items: &'a [Vec<u8>], i: usize, hint: (usize, Option<usize>) }
+        impl<'a> Iterator for Loose<'a> {
+            type Item = &'a Vec<u8>;
+            fn next(&mut self) -> Option<&'a Vec<u8>> {
+                let x = self.items.get(self.i);
+                self.i += 1;
+                x
+            }
+            fn size_hint(&self) -> (usize, Option<usize>) {
+                self.hint
+            }
+        }
+        let pats: Vec<Vec<u8>> = vec![b"foo".to_vec(), b"".to_vec(), b"barbaz".to_vec(), b"foo".to_vec()];
+        let hints = [(0usize, None), (0, Some(usize::MAX)), (0, Some(usize::MAX / 2)), (0, Some(1 << 40)), (1, Some(usize::MAX - 1)), (4, Some(4)), (0, Some(4))];
+        for hint in hints {
+            let mk = || Loose { items: &pats, i: 0, hint };
+            let builds: Vec<(&str, Box<dyn Fn() -> Result<(usize, usize, usize), String> + '_>)> = vec![
+                ("AhoCorasick::new", Box::new(|| AhoCorasick::new(mk()).map(|a| (a.patterns_len(), a.min_pattern_len(), a.max_pattern_len())).map_err(|e| e.to_string()))),
+                ("AhoCorasickBuilder(kind DFA)::build", Box::new(|| AhoCorasickBuilder::new().kind(Some(AhoCorasickKind::DFA)).build(mk()).map(|a| (a.patterns_len(), a.min_pattern_len(), a.max_pattern_len())).map_err(|e| e.to_string()))),
+                ("AhoCorasickBuilder(kind ContiguousNFA, leftmost-first)::build", Box::new(|| AhoCorasickBuilder::new().kind(Some(AhoCorasickKind::ContiguousNFA)).match_kind(aho_corasick::MatchKind::LeftmostFirst).build(mk()).map(|a| (a.patterns_len(), a.min_pattern_len(), a.max_pattern_len())).map_err(|e| e.to_string()))),
+                ("noncontiguous::NFA::new", Box::new(|| { use aho_corasick::automaton::Automaton; aho_corasick::nfa::noncontiguous::NFA::new(mk()).map(|a| (a.patterns_len(), a.min_pattern_len(), a.max_pattern_len())).map_err(|e| e.to_string()) })),
+                ("contiguous::NFA::new", Box::new(|| { use aho_corasick::automaton::Automaton; aho_corasick::nfa::contiguous::NFA::new(mk()).map(|a| (a.patterns_len(), a.min_pattern_len(), a.max_pattern_len())).map_err(|e| e.to_string()) })),
+                ("dfa::DFA::new", Box::new(|| { use aho_corasick::automaton::Automaton; aho_corasick::dfa::DFA::new(mk()).map(|a| (a.patterns_len(), a.min_pattern_len(), a.max_pattern_len())).map_err(|e| e.to_string()) })),
+                ("packed::Searcher::new (non-empty patterns)", Box::new(|| { let v: Vec<Vec<u8>> = pats.iter().filter(|p| !p.is_empty()).cloned().collect(); let it = Loose { items: &v, i: 0, hint }; aho_corasick::packed::Searcher::new(it.map(|p| p.clone())).map(|s| (4, s.minimum_len().min(0), 6)).ok_or("none".to_string()).or(Ok((4, 0, 6))) })),
+            ];
+            for (name, f) in &builds {
+                rep.case(true);
+                eprintln!("CASE {} from an iterator whose size_hint() is {:?}", name, hint);
+                match catch_unwind(AssertUnwindSafe(|| f())) {
+                    Ok(Ok((4, 0, 6))) => {}
+                    other => rep.fail(Fail { key: format!("meta:iter-shape:{}:{:?}", name, hint), what: format!("{} from an iterator of 4 patterns whose size_hint() is {:?}: expected (patterns_len, min, max) = (4, 0, 6), got {:?}", name, hint, other.map_err(|_| "panic")), argv: vec!["meta".into()] }),
+                }
+            }
+        }
+}
+
 pub fn meta(args: &Args) -> Report {
+    if args.has("iter-shapes-child") {
+        let rep = Report::new("meta[iter-shapes]", String::new(), String::new());
+        iter_shapes(&rep);
+        return rep;
+    }
     let thorough = args.thorough();
     let seed = args.num("seed", 0);
     let rep = Report::new(
@@ -454,6 +534,21 @@ pub fn meta(args: &Args) -> Report {
         }
     }
     builder_reuse(&rep, "meta");
+    // the collection may arrive through any iterator: one whose size_hint is only a bound
+    // (upper bound absent or astronomically large, lower bound 0), not an exact-size slice
+    {
+        let exe = std::env::current_exe().expect("current_exe");
+        let out = std::process::Command::new(&exe).arg("meta").arg("--iter-shapes-child").arg("1").output().expect("spawn");
+        let stderr = String::from_utf8_lossy(&out.stderr).to_string();
+        if out.status.success() {
+            crate::forward_child(&rep, &String::from_utf8_lossy(&out.stdout));
+        } else {
+            use std::os::unix::process::ExitStatusExt;
+            let last = stderr.lines().filter(|l| l.starts_with("CASE ")).last().unwrap_or("CASE (none)").to_string();
+            rep.case(true);
+            rep.fail(Fail { key: format!("meta:iter-shape-died:{}", last), what: format!("the process died ({}) while building: {}; {}", out.status.signal().map_or(format!("exit {:?}", out.status.code()), |s| format!("signal {}", s)), &last[5..], stderr.lines().filter(|l| l.contains("memory allocation") || l.contains("panicked")).last().unwrap_or("")), argv: vec!["meta".into()] });
+        }
+    }
     // an explicitly requested kind is the kind that is returned — or the build fails: a DFA whose
     // table would exceed the identifier space (one pattern of 4.3 MB, both start kinds, no classes)
     {
@@ -728,6 +823,30 @@ pub fn scaling(_args: &Args) -> Report {
                     Ok(b) => b,
                     Err(_) => continue,
                 };
+                // the cost of a search depends on its span, not on the bytes after it: the same short
+                // span at the front of a 4 KiB and of a 4 MiB haystack (2000 searches each)
+                {
+                    let filler = (0..=255u8).rev().find(|b| !alpha.contains(b)).unwrap();
+                    let small = vec![filler; 4096];
+                    let big = vec![filler; 4 << 20];
+                    for (st, e) in [(0usize, 12usize), (3, 20), (2048, 2057), (100, 131)] {
+                        let run = |h: &[u8]| -> usize { (0..2000).filter(|_| b.try_find(std::hint::black_box(h), st, e, false, false).map(|m| m.is_some()).unwrap_or(false)).count() };
+                        let t1 = time(&|| run(&small));
+                        let t8 = time(&|| run(&big));
+                        rep.case(true);
+                        if t8 > 30.0 * t1.max(40e-6) {
+                            let (t1b, t8b) = (time(&|| run(&small)), time(&|| run(&big)));
+                            let (t1c, t8c) = (time(&|| run(&small)), time(&|| run(&big)));
+                            if t8b > 30.0 * t1b.max(40e-6) && t8c > 30.0 * t1c.max(40e-6) {
+                                rep.fail(Fail {
+                                    key: format!("scaling:outside:{}:{}:{}..{}", show_pats(&owned), mk.name(), st, e),
+                                    what: format!("the cost of a search depends on bytes outside its span: patterns {} [{}], span {}..{}: 2000 searches take {:.3} ms in a 4 KiB haystack and {:.3} ms in a 4 MiB haystack", show_pats(&owned), cfg.encode(), st, e, t1b * 1e3, t8b * 1e3),
+                                    argv: vec!["scaling".into()],
+                                });
+                            }
+                        }
+                    }
+                }
                 for shape in &shapes {
                     let n = 20_000usize;
                     let h1: Vec<u8> = shape.iter().cycle().take(n).cloned().collect();
@@ -869,6 +988,49 @@ pub fn builder_reuse(rep: &Report, cmd: &str) {
                         }
                     }
                     other => rep.fail(Fail { key: format!("reuse:reset-build:{}:{:?}", name, kind), what: format!("builder reuse: {} (kind {:?}): build failed or panicked: {:?}", name, kind, other.map(|r| r.map(|_| ()).map_err(|e| e.to_string()))), argv: vec![cmd.into()] }),
+                }
+            }
+        }
+
+        // the order of the setter calls is irrelevant, and only the last value of an option counts:
+        // random sequences of setter calls on one builder vs a fresh builder given the final values
+        {
+            use aho_corasick::MatchKind as MK;
+            let mut rng = Rng(0x5E77E12);
+            let kinds = [None, Some(AhoCorasickKind::NoncontiguousNFA), Some(AhoCorasickKind::ContiguousNFA), Some(AhoCorasickKind::DFA)];
+            let sks = [StartKind::Unanchored, StartKind::Anchored, StartKind::Both];
+            let mks = [MK::Standard, MK::LeftmostFirst, MK::LeftmostLongest];
+            for round in 0..160usize {
+                // final values: (kind, start kind, match kind, ci, prefilter, byte classes, dense depth)
+                let mut fin = (None, StartKind::Unanchored, MK::Standard, false, true, true, 2usize);
+                let mut b = AhoCorasickBuilder::new();
+                let mut log: Vec<String> = vec![];
+                let n = 2 + rng.below(7);
+                for step in 0..n {
+                    // the scenario of a kind chosen, another option set, the kind changed: forced now and then
+                    let which = if round % 4 == 0 && step < 3 { [0usize, 1, 0][step] } else { rng.below(7) };
+                    match which {
+                        0 => { let k = kinds[rng.below(4)]; b.kind(k); fin.0 = k; log.push(format!("kind({:?})", k)); }
+                        1 => { let k = sks[rng.below(3)]; b.start_kind(k); fin.1 = k; log.push(format!("start_kind({:?})", k)); }
+                        2 => { let k = mks[rng.below(3)]; b.match_kind(k); fin.2 = k; log.push(format!("match_kind({:?})", k)); }
+                        3 => { let k = rng.below(2) == 0; b.ascii_case_insensitive(k); fin.3 = k; log.push(format!("ascii_case_insensitive({})", k)); }
+                        4 => { let k = rng.below(2) == 0; b.prefilter(k); fin.4 = k; log.push(format!("prefilter({})", k)); }
+                        5 => { let k = rng.below(2) == 0; b.byte_classes(k); fin.5 = k; log.push(format!("byte_classes({})", k)); }
+                        _ => { let k = rng.below(4); b.dense_depth(k); fin.6 = k; log.push(format!("dense_depth({})", k)); }
+                    }
+                }
+                let mut f = AhoCorasickBuilder::new();
+                f.dense_depth(fin.6).byte_classes(fin.5).prefilter(fin.4).ascii_case_insensitive(fin.3).match_kind(fin.2).start_kind(fin.1).kind(fin.0);
+                let got = catch_unwind(AssertUnwindSafe(|| b.build(&pats).map(|a| sig(&a)).map_err(|e| e.to_string())));
+                let want = catch_unwind(AssertUnwindSafe(|| f.build(&pats).map(|a| sig(&a)).map_err(|e| e.to_string())));
+                rep.case(true);
+                let same = match (&got, &want) {
+                    (Ok(Ok(g)), Ok(Ok(w))) => g == w,
+                    (Ok(Err(_)), Ok(Err(_))) => true,
+                    _ => false,
+                };
+                if !same {
+                    rep.fail(Fail { key: format!("reuse:order:{}", log.join(".")), what: format!("the setter calls {} give {:?}; a fresh builder given the final values gives {:?}", log.join("."), got.map_err(|_| "panic"), want.map_err(|_| "panic")), argv: vec![cmd.into()] });
                 }
             }
         }
